@@ -74,7 +74,7 @@ RECIPES = {
         monitors={"C13"},
         mc=[MC_QM, MC_NOOP],
         runs=[dict(cmd="run", gen="rejects:120,small:40,positions:40,aim-noop:60", policy="always_flush"),
-              dict(cmd="run", gen="rejects:30,aim-noop:10", policy="do_nothing,always_fsync")],
+              dict(cmd="run", gen="rejects:30,aim-noop:10,positions:10", policy="do_nothing,always_fsync,on_delay_long_flush")],
         rule="every rejected / no-op call: no write/create/set_len/unlink event, wal_bytes_written = 0, state, cursor "
              "and file list unchanged; restart-equality through the C01/C05 monitors of the same run; "
              "non-trivial = rejected or no-op calls",
